@@ -15,6 +15,9 @@ Rewrites (see DESIGN.md 1.2):
      count) or the unit is undecided
  R4  comprehensions / generator expressions with a single ``for`` become
      ``__vc.comp(kind, iter, lambda target: elt, [lambda target: cond])`` when requested
+ R8  (on request) the empty container displays ``[]``, ``{}`` and the call ``set()`` become
+     ``__vc.new_list()`` / ``__vc.new_dict()`` / ``__vc.new_set()`` so that containers a cut loop mutates are
+     symbolic values the loop contract can havoc
  R6  annotations and docstrings dropped
  R7  decorators are kept and evaluated in the supplied environment, except those listed in
      ``drop_decorators`` (``lru_cache``)
@@ -92,7 +95,8 @@ def _assigned_names(nodes):
 
 
 class _Rewriter(ast.NodeTransformer):
-    def __init__(self, nonlocals, cut_loops, native_loops, cut_comps, fname):
+    def __init__(self, nonlocals, cut_loops, native_loops, cut_comps, fname, sym_containers=False):
+        self.sym_containers = sym_containers
         self.nonlocals = set(nonlocals)
         self.cut_loops = cut_loops  # ordinal -> key
         self.native_loops = set(native_loops)
@@ -149,13 +153,15 @@ class _Rewriter(ast.NodeTransformer):
         if k in self.native_loops:
             self.generic_visit(node)
             return node
-        if k not in self.cut_loops:
+        if self.cut_loops == "auto":
+            pass
+        elif k not in self.cut_loops:
             raise ExtractionError(
                 f"{self.fname}: loop #{k} (line {node.lineno}) has neither an invariant nor a 'native' declaration in the sidecar"
             )
         if node.orelse:
             raise ExtractionError(f"{self.fname}: loop #{k} has an else clause (not supported)")
-        key = self.cut_loops[k]
+        key = k if self.cut_loops == "auto" else self.cut_loops[k]
         assigned = _assigned_names(node.body + ([node.target] if is_for else []))
         self.generic_visit(node)
         L = f"__L{k}"
@@ -224,6 +230,31 @@ class _Rewriter(ast.NodeTransformer):
 
     def visit_While(self, node):
         return self._cut(node, False)
+
+    # R8 ---------------------------------------------------------------------------------
+    def _vc_call(self, name, node):
+        return ast.copy_location(
+            ast.Call(func=ast.Attribute(value=ast.Name(id="__vc", ctx=ast.Load()), attr=name, ctx=ast.Load()), args=[], keywords=[]),
+            node,
+        )
+
+    def visit_List(self, node):
+        self.generic_visit(node)
+        if self.sym_containers and isinstance(node.ctx, ast.Load) and not node.elts:
+            return self._vc_call("new_list", node)
+        return node
+
+    def visit_Dict(self, node):
+        self.generic_visit(node)
+        if self.sym_containers and not node.keys:
+            return self._vc_call("new_dict", node)
+        return node
+
+    def visit_Call(self, node):
+        self.generic_visit(node)
+        if self.sym_containers and isinstance(node.func, ast.Name) and node.func.id == "set" and not node.args and not node.keywords:
+            return self._vc_call("new_set", node)
+        return node
 
     # R4 ---------------------------------------------------------------------------------
     def _comp(self, node, kind, elt):
@@ -306,7 +337,8 @@ def locals_snapshot():
     return dict(sys._getframe(1).f_locals)
 
 
-def extract(relpath, qualname, *, cut_loops=None, native_loops=(), cut_comps=False, drop_decorators=("lru_cache",), keep_nonlocal=False):
+def extract(relpath, qualname, *, cut_loops=None, native_loops=(), cut_comps=False, drop_decorators=("lru_cache",), keep_nonlocal=False,
+            sym_containers=False):
     import copy
 
     tree, src, path = module_ast(relpath)
@@ -322,9 +354,9 @@ def extract(relpath, qualname, *, cut_loops=None, native_loops=(), cut_comps=Fal
             continue
         decos.append(d)
     node.decorator_list = decos
-    rw = _Rewriter(nonlocals, dict(cut_loops or {}), native_loops, cut_comps, f"{relpath}:{qualname}")
+    rw = _Rewriter(nonlocals, cut_loops if cut_loops == "auto" else dict(cut_loops or {}), native_loops, cut_comps, f"{relpath}:{qualname}", sym_containers)
     node = rw.visit(node)
-    missing = [k for k in (cut_loops or {}) if k not in rw.loops_seen]
+    missing = [] if cut_loops == "auto" else [k for k in (cut_loops or {}) if k not in rw.loops_seen]
     if missing:
         raise ExtractionError(f"{relpath}:{qualname}: sidecar names loops {missing} that no longer exist")
     ast.fix_missing_locations(node)
